@@ -1517,6 +1517,7 @@ theorem c05_shape_Overlay_TransmitMsg :
      "o.newTreeNodeInstanceFromToken", "treeStorage.Set", "o.hasPendingMsg",
      "o.checkPendingMessages", "To.ID", "o.getConfig",
      "serviceManager.newProtocol", "instancesLock.Lock", "o.nodeDelete", "instancesLock.Unlock",
+     "instancesLock.Lock", "o.nodeDelete", "instancesLock.Unlock",
      "go{", "defer{", "tni.Token", "ServiceFactory.Name", "}", "pi.Dispatch", "tni.Token",
      "ServiceFactory.Name", "}", "o.RegisterProtocolInstance", "pi.ProcessProtocolMsg"] := rfl
 
